@@ -10,6 +10,8 @@ import json, os, random, shutil, time, copy
 import vbuild, vtlc, engine, gen_core, checklib
 from vbuild import VERIF, InfraError
 
+PROPS = ["C01", "C02", "C03", "C04", "C05", "C06", "C17"]
+
 FLAGMAP = {"": (0, 0), "show": (1, 0), "update": (2, 0), "showupdate": (3, 0), "conc": (8, 0), "prio": (0, 0x10)}
 UFLAGMAP = {"": 0, "first": 1, "cancel": 2}
 
